@@ -26,7 +26,7 @@ func genuineTrace(n int, cnf [][]int) [][]int {
 	return run.lines
 }
 
-func genCertCase(r *Rng, tier string) CertCase {
+func genCertCase(r *Rng, tier string) (c CertCase) {
 	n := r.Range(2, 12)
 	var cnf [][]int
 	if r.Chance(3, 4) {
@@ -39,7 +39,24 @@ func genCertCase(r *Rng, tier string) CertCase {
 		cnf = genKSat(r, n, r.Range(n, 4*n), r.Range(2, 3))
 	}
 	cnf = shuffleCnf(r, cnf)
-	c := CertCase{NbVars: n, Cnf: cnf}
+	rep := r.Chance(1, 4) // clauses (and, below, certificate lines) that write a literal twice
+	if rep {
+		for i := range cnf {
+			if r.Chance(1, 3) && len(cnf[i]) > 0 {
+				cnf[i] = append(cnf[i], cnf[i][r.Intn(len(cnf[i]))])
+			}
+		}
+	}
+	c = CertCase{NbVars: n, Cnf: cnf}
+	defer func() {
+		if rep {
+			for i := range c.Lines {
+				if r.Chance(1, 4) && len(c.Lines[i]) > 0 {
+					c.Lines[i] = append(append([]int{}, c.Lines[i]...), c.Lines[i][r.Intn(len(c.Lines[i]))])
+				}
+			}
+		}
+	}()
 	trace := genuineTrace(n, cnf)
 	switch k := r.Intn(10); {
 	case k < 3 || len(trace) == 0 && k < 6:
